@@ -17,6 +17,7 @@ offline checks over each recorded history:
 import numpy as np
 
 from vf.common import Plan, crandn, held, violated, inconclusive, rng_for, nrm, pick
+from vf import repo_tests
 from vf.monitors import alg_mon, STATE
 
 SPEC = {
@@ -72,6 +73,9 @@ def plan(tier, seed):
               via=pick(rng, ["func", "linop", "maxeig"]), mi=int(pick(rng, [1, 5, 30])),
               spec=pick(rng, ["psd", "psd", "rankdef", "repeated"]),
               aseed=int(rng.integers(1 << 30)))
+    if tier == "thorough" and repo_tests.available():
+        # the repository's own test suite as one more workload under the always-on monitors
+        P.add("repo-tests", timeout=1800.0, fresh=True)
     return P.cases
 
 
@@ -546,6 +550,8 @@ def run_fista_stall(case):
 
 
 def run_case(case):
+    if case["gen"] == "repo-tests":
+        return repo_tests.run("C15")
     if case["gen"] == "fista-stall":
         return run_fista_stall(case)
     return {"loop": run_loop, "interleave": run_interleave, "app": run_app,
